@@ -172,6 +172,21 @@ def check(ctx):
                    "deregister() is unconditional: a pooled monitor shared with another cell stops recording for that cell too",
                    P.loc(f, r.ast), None)
     ctx.require("C15.e", "release sites", nrel, 2)
+    # every other release inside the pool is either ownership-guarded or the not-training deregistration of add_monitor
+    for f in pool.all_funcs():
+        if f.name in ("del_observed", "del_monitor"):
+            continue
+        g = CFG(f.node)
+        for r in g.stmt_nodes_calling(lambda c: isinstance(c.func, ast.Attribute) and c.func.attr == "deregister"):
+            gs = g.guards_of(r)
+            owned = any(isinstance(x, (ast.GeneratorExp, ast.ListComp, ast.SetComp, ast.DictComp)) and
+                        any(is_self_attr(y, "monitors_") for gen in x.generators for y in ast.walk(gen.iter))
+                        for t, lab in gs for e in _expand_names(t, f.node) for x in ast.walk(e))
+            nottraining = any(ast.unparse(t) == "not self.training" and lab == "T" for t, lab in gs)
+            ctx.ob("C15.e", f"MonitorPool.{f.name}: release `{ast.unparse(r.ast)[:40]}`", owned or nottraining,
+                   "pool not training (every monitor is deregistered then)" if nottraining else ("ownership-guarded" if owned else
+                   "deregisters a monitor that may be pooled (shared with another observable) without an ownership test: the other cell stops recording"),
+                   P.loc(f, r.ast), None)
 
     # ---------------- (f) pool-key completeness
     for c in classes:
@@ -261,6 +276,60 @@ def check(ctx):
                 ctx.ob("C15.g", f"{c.name} monitor '{name}' runs after its sources {srcs}", ok,
                        "dependent appended, sources prepended" if ok else "hook order within a step is not sources-then-dependent", P.loc(rc, site.call), None)
 
+    # ---------------- (i) attribute realignment: cell shortcut -> component path -> layer path
+    cell = P.cls("Cell")
+    lr = cell.methods.get("local_remap")
+    if lr is None:
+        raise AnalysisError("anchor vanished: Cell.local_remap")
+    ctx.touch(lr)
+    table = None
+    for n in ast.walk(lr.node):
+        if isinstance(n, ast.Dict) and len(n.keys) >= 4 and all(isinstance(k, ast.Constant) for k in n.keys) and all(isinstance(v, ast.List) for v in n.values):
+            table = {k.value: [e.value for e in v.elts if isinstance(e, ast.Constant)] for k, v in zip(n.keys, n.values)}
+    ctx.ob("C15.i", "Cell.local_remap has a shortcut table", table is not None, "", lr.where)
+    if table:
+        for short, path in sorted(table.items()):
+            g = cell.props.get(short, {}).get("get")
+            if g is None:
+                ctx.ob("C15.i", f"Cell shortcut '{short}' has a matching property", False, "shortcut without a property of the same name", lr.where)
+                continue
+            ret = [x for x in walk_own(g.node) if isinstance(x, ast.Return)]
+            d = dotted(ret[0].value) if ret else None
+            got = (d or "").replace("self.", "").replace("connection_", "connection").replace("neuron_", "neuron").split(".")
+            ok = got == path
+            ctx.ob("C15.i", f"Cell.local_remap['{short}'] names the attribute Cell.{short} returns", ok,
+                   f"table {'.'.join(path)}, property returns {d}" + ("" if ok else " — a monitor registered on the shortcut observes a different quantity than the shortcut reports"),
+                   lr.where)
+        txt = ast.unparse(lr.node)
+        ok = "{'connection_': 'connection', 'neuron_': 'neuron'}" in txt and "case 'connection':\n            return (('connection', '.'.join(attrchain[1:])), {})" in txt \
+            and "case 'neuron':\n            return (('neuron', '.'.join(attrchain[1:])), {})" in txt and "return (('cell', '.'.join(attrchain)), {})" in txt
+        ctx.ob("C15.i", "Cell.local_remap dispatches connection / neuron / cell targets with the remaining attribute chain", ok, "", lr.where)
+    ra = P.cls("Layer").methods.get("_realign_attribute")
+    if ra is None:
+        raise AnalysisError("anchor vanished: Layer._realign_attribute")
+    ctx.touch(ra)
+    want = {"connection": "connections_.{connection}", "neuron": "neurons_.{neuron}", "cell": "cells_.{connection}.{neuron}"}
+    for m in [n for n in walk_own(ra.node) if isinstance(n, ast.Match)]:
+        for case in m.cases:
+            if isinstance(case.pattern, ast.MatchValue) and isinstance(case.pattern.value, ast.Constant) and case.pattern.value.value in want:
+                tgt = case.pattern.value.value
+                fs = [x for b in case.body for x in ast.walk(b) if isinstance(x, ast.JoinedStr)]
+                rets = [x for b in case.body for x in ast.walk(b) if isinstance(x, ast.Return) and isinstance(x.value, ast.JoinedStr)]
+                pref = ""
+                if rets:
+                    for part in rets[0].value.values:
+                        if isinstance(part, ast.Constant):
+                            pref += part.value
+                        elif isinstance(part, ast.FormattedValue) and isinstance(part.value, ast.Name):
+                            pref += "{" + part.value.id + "}"
+                        else:
+                            break
+                ok = pref.rstrip(".") == want[tgt]
+                ctx.ob("C15.i", f"Layer._realign_attribute('{tgt}') = {want[tgt]}.<attr>", ok, f"builds {pref!r}", ra.where)
+    init = P.cls("Layer").methods["__init__"]
+    names = {n.targets[0].attr for n in walk_own(init.node) if isinstance(n, ast.Assign) and is_self_attr(n.targets[0]) and "ModuleDict" in ast.unparse(n.value)}
+    ctx.ob("C15.i", "Layer registers connections_, neurons_, cells_ as module dictionaries (the realigned paths exist)", {"connections_", "neurons_", "cells_"} <= names, f"{sorted(names)}", init.where)
+
     # ---------------- (h) alias search guard
     ok_h, detail = False, "alias-search guard not found"
     for lp in [x for x in walk_own(oam.node) if isinstance(x, ast.For)]:
@@ -289,6 +358,26 @@ def check(ctx):
         ok_h = not bad and "B" in names
         detail = "observables of a dead or different basis are skipped" if ok_h else "; ".join(bad) or "guard does not test for a different basis"
     ctx.ob("C15.h", "Observable.add_monitor: alias search skips dead / foreign observables", ok_h, detail, oam.where)
+    # the aliasing tag '_attr' is the *realigned* path the monitor is constructed with
+    from .. import terms as _terms, nf as _nf
+    tagv, ctor_args = None, []
+    for n in walk_own(oam.node):
+        if isinstance(n, ast.Dict):
+            for k, v in zip(n.keys, n.values):
+                if isinstance(k, ast.Constant) and k.value == "_attr":
+                    tagv = (n, v)
+        if isinstance(n, ast.Call) and isinstance(n.func, ast.Name) and n.func.id == "constructor" and n.args:
+            ctor_args.append((n, n.args[0]))
+    okt = tagv is not None and bool(ctor_args)
+    if okt:
+        def val(node, expr):
+            b = _terms.Builder(P, oam, {}, inline_depth=0)
+            _terms.prime(b, oam.node, node)
+            return b.t(expr)
+        tv = val(tagv[0], tagv[1])
+        okt = all(_nf.equal(tv, val(c, a)) for c, a in ctor_args) and "realign_attribute" in _nf.show(tv)
+    ctx.ob("C15.h", "Observable.add_monitor: the '_attr' aliasing tag is the realigned (layer-level) path the monitor observes", okt,
+           "" if okt else "the tag is not the realigned path: cells that differ only in the neuron group / connection they resolve to would share one monitor", oam.where)
     # alias identity = same name, same tags (incl. realigned attribute)
     ok = any(isinstance(x, ast.Compare) and "_tags" in ast.unparse(x.left) and isinstance(x.ops[0], ast.Eq) and ast.unparse(x.comparators[0]) == "tags"
              for x in walk_own(oam.node)) and any(isinstance(st, ast.Assign) and "'_attr': attr" in ast.unparse(st.value) for st in walk_own(oam.node))
